@@ -67,8 +67,10 @@ set_config, get_config, regist_config = create_config(
 def temp_config(name, var):
     tmp = get_config(name)
     set_config(name, var)
-    yield var
-    set_config(name, tmp)
+    try:
+        yield var
+    finally:
+        set_config(name, tmp)
 
 
 using_amplitude = lambda var: temp_config("amp", var)
